@@ -8,7 +8,7 @@ on recursion, the call is opaque."""
 import ast
 import os
 
-SRC = "/repo/src/deep"
+SRC = os.environ.get("VERIF_DEV_SRC", "/repo/src") + "/deep"      # the override is for the seeded-change regression (worktrees) only
 BOTH = "[EExc; EBase]"
 
 # ---- the no-raise whitelist (shown in the evidence) ---------------------------------------------
